@@ -86,6 +86,22 @@ def check(ctx, items):
         if "k" not in it:
             ctx.violation("key generation failed for %s: %s" % (it["type"], it.get("err")), {"type": it["type"]})
     mod = vlib.model([{"op": "jwk", "raw": it["k"]["raw"], "pub_pem": it["k"]["pub_pem"]} for it in good], timeout=3000)
+    def members_hex(jwk_text):
+        import base64
+        try:
+            j = json.loads(jwk_text)
+            return {k: base64.urlsafe_b64decode(v + "=" * (-len(v) % 4)).hex() for k, v in j.items()
+                    if k in ("n", "e", "x", "y")}
+        except Exception:
+            return {}
+    judged = vlib.model([{"op": "c15_judge", "raw": it["k"]["raw"], "jwk": it["k"]["jwk"],
+                          "thumb": it["k"]["thumbprint_input"], "members": members_hex(it["k"]["jwk"])}
+                         for it in good], timeout=3000)
+    for it, jv in zip(good, judged):
+        if not jv.get("holds"):
+            ctx.violation("Spec.C15 judge: the public JWK / thumbprint input of a %s key is not the RFC form of its raw "
+                          "components" % it["type"], {"type": it["type"], "key_pem": it["k"]["pem"],
+                                                      "impl_jwk": it["k"]["jwk"], "raw": it["k"]["raw"]})
     splits = vlib.model([{"op": "sig_split", "sig_hex": it["sig"].get("sig_hex", ""), "width": WIDTH.get(it["type"], 0)}
                          if it["type"] in WIDTH else {"op": "ping"} for it in good], timeout=3000)
     for it, m, sp in zip(good, mod, splits):
